@@ -15,7 +15,7 @@ from __future__ import annotations
 import itertools
 
 from ..absint import Interp, Sym, Lin, Obj, StrV, Raised, explore, show
-from ..bits import Bits
+from ..bits import Bits, bits_relation
 from ..consts import Folder
 from ..model import AXML, AnalysisError
 
@@ -62,8 +62,73 @@ def norm_code(c, asg):
     return c
 
 
-def code_eq(a, b, asg):
-    return norm_code(a, asg) == norm_code(b, asg)
+def _sources(c):
+    """source bits a character code depends on; None when it has a part the interpreter could not evaluate"""
+    if isinstance(c, int):
+        return set()
+    if isinstance(c, Bits):
+        return None if c.has_top() else set(c.sources())
+    if isinstance(c, Lin):
+        out = set()
+        for a in c.terms:
+            if not isinstance(a, Bits) or a.has_top():
+                return None
+            out |= set(a.sources())
+        return out
+    return None
+
+
+def _conc(c, env):
+    if isinstance(c, int):
+        return c
+    if isinstance(c, Bits):
+        return c.subst(env).value()
+    return c.const + sum(k * a.subst(env).value() for a, k in c.terms.items())
+
+
+def code_relation(a, b, asg):
+    """'equal' | 'different' | 'unknown' -- decided semantically: two exact forms over <= 12 source bits are compared on
+    every assignment of those bits, larger ones on 64 fixed patterns (a difference found is a witness; none found = unknown)"""
+    a, b = norm_code(a, asg), norm_code(b, asg)
+    if isinstance(a, bool) or isinstance(b, bool):
+        return "unknown"
+    if type(a) is type(b) and a == b:
+        return "equal"
+    sa, sb = _sources(a), _sources(b)
+    if sa is None or sb is None:
+        return "unknown"
+    srcs = sorted(sa | sb, key=repr)
+    if len(srcs) <= 12:
+        for n in range(1 << len(srcs)):
+            env = {k: (n >> i) & 1 for i, k in enumerate(srcs)}
+            if _conc(a, env) != _conc(b, env):
+                return "different"
+        return "equal"
+    x = 0x9E3779B97F4A7C15
+    for _ in range(64):
+        x = (x * 6364136223846793005 + 1442695040888963407) & (2 ** 64 - 1)
+        env = {k: (x >> (i % 61)) & 1 for i, k in enumerate(srcs)}
+        if _conc(a, env) != _conc(b, env):
+            return "different"
+    return "unknown"
+
+
+def chars_relation(got, exp, asg):
+    """relation of an abstract string with the expected character list"""
+    if not isinstance(got, StrV):
+        return "unknown"
+    rels = [code_relation(x, y, asg) for x, y in zip(got.chars, exp)]
+    if "different" in rels:
+        return "different"
+    if "unknown" in rels or any(_sources(norm_code(c, asg)) is None for c in got.chars):
+        return "unknown"
+    return "equal" if len(got.chars) == len(exp) else "different"
+
+
+def decide(ctx, rule, inst, rel, func, construct, message, detail):
+    if rel == "unknown":
+        raise AnalysisError("C30 %s [%s]: cannot decide -- %s" % (rule, inst, message[:600]))
+    ctx.check(rule, inst, rel == "equal", func, construct, message, detail=detail)
 
 
 def show_chars(chars):
@@ -92,7 +157,7 @@ def run(ctx):
 
         def run1(asg, chars=chars):
             a = dict(asg)
-            it = Interp(repo, folder, asg=a)
+            it = Interp(repo, folder, asg=a, hooks={"inline_funcs": {"*module*"}})
             it.max_split = 4
             o = Obj(cls, "config")
             it.call_function(fset, [StrV(chars)], recv=o)
@@ -105,8 +170,7 @@ def run(ctx):
                 ctx.check("encode-decode", inst, False, fset, "%s-r%s" % (ln, rn), "set/get_language_and_region raises %s for a %s locale" % (r, inst), node=r.node)
                 continue
             asg, word, back = r
-            ok = isinstance(back, StrV) and len(back.chars) == len(chars) and all(code_eq(x, y, asg) for x, y in zip(back.chars, chars))
-            ctx.check("encode-decode", inst, ok, fpack if ln == "lll" or rn == "ddd" else fset, "%s-r%s" % (ln, rn),
+            decide(ctx, "encode-decode", inst, chars_relation(back, chars, asg), fpack if ln == "lll" or rn == "ddd" else fset, "%s-r%s" % (ln, rn),
                       "a %s locale string does not survive set_language_and_region/get_language_and_region: encoded %s as word %s, decoded %s" % (
                           inst, show_chars(chars), show(word)[:160], show(back)[:200]),
                       detail="get(set(s)) == s for every %s" % inst)
@@ -132,7 +196,7 @@ def run(ctx):
 
         def run2(asg, bits=l0 + l1 + r0 + r1):
             a = dict(asg)
-            it = Interp(repo, folder, asg=a)
+            it = Interp(repo, folder, asg=a, hooks={"inline_funcs": {"*module*"}})
             it.max_split = 4
             w = Bits.source([a.get(b, b) if isinstance(b, tuple) else b for b in bits], False)
             o = Obj(cls, "config")
@@ -147,9 +211,9 @@ def run(ctx):
                 ctx.check("decode-encode", inst, False, fget, inst, "get/set_language_and_region raises %s for a %s" % (r, inst), node=r.node)
                 continue
             asg, w, s, w2 = r
-            w2b = Bits.const(w2) if isinstance(w2, int) else w2
-            ok = isinstance(w2b, Bits) and w2b.subst(asg) == w.subst(asg)
-            ctx.check("decode-encode", inst, ok, fpack if "packed" in (ln, rn) else fset, inst,
+            w2b = Bits.const(w2) if isinstance(w2, int) and not isinstance(w2, bool) else w2
+            rel = bits_relation(w2b.subst(asg), w.subst(asg)) if isinstance(w2b, Bits) else "unknown"
+            decide(ctx, "decode-encode", inst, rel, fpack if "packed" in (ln, rn) else fset, inst,
                       "configuration word %s decodes to %s but encoding that string gives %s" % (w.subst(asg).describe(), show(s)[:160], show(w2b)[:200]),
                       detail="set(get(w)) == w for every %s" % inst)
             # AOSP layout of the decoded text
@@ -159,7 +223,7 @@ def run(ctx):
 
     # ---- default locale -------------------------------------------------------------
     def run3(asg):
-        it = Interp(repo, folder, asg=dict(asg))
+        it = Interp(repo, folder, asg=dict(asg), hooks={"inline_funcs": {"*module*"}})
         o = Obj(cls, "config")
         o.attrs["locale"] = 0
         s = it.call_function(fget, [], recv=o)
@@ -192,8 +256,7 @@ def _check_layout(ctx, funpack, inst, ln, rn, l0, l1, r0, r1, s, asg):
     if rn != "zero":
         exp += [ord("-"), ord("r")]
         exp += packed_chars(r0, r1, ord("0")) if rn == "packed" else plain_chars(r0, r1)
-    ok = len(s.chars) == len(exp) and all(code_eq(x, y, asg) for x, y in zip(s.chars, exp))
-    ctx.check("decode-layout", inst, ok, funpack, inst,
+    decide(ctx, "decode-layout", inst, chars_relation(s, exp, asg), funpack, inst,
               "%s decodes to %s; AOSP unpackLanguageOrRegion gives %s" % (inst, show(s)[:200], show_chars([norm_code(c, asg) for c in exp])[:200]),
               detail="decoded text = AOSP layout")
 
